@@ -12,7 +12,8 @@ the label order is read from the unpickled EDB.serialize(), and TLC (Trace_Order
 (ii) Moves (PiPtr, Pi2Lev, SSE1, DP17).  Model: MC_Place explores the placement of array-resident blocks as a sequence of
 uniform choices exhaustively on small instances and checks that every complete placement has probability <= 1/prod(factors)
 for the closed-form factors of Order.tla; FamilyOK picks, among candidate databases, those with >= 12 array blocks and
->= 1e8 equally likely placements.  Binding: two real setups per family (same key: PiPtr, Pi2Lev, DP17; fresh key: SSE1),
+>= 1e8 equally likely placements.  Binding: two real setups per family (the second under a key of its own: the property allows a fresh key wherever
+placement is key-derived, and whether it is, is the construction's business),
 list-typed index members replaced by a recording list, every keyword searched, ordered slot tuples logged; for DP17 the
 occupants of every bucket read are logged too.  TLC judges Moves (tuples differ) and Moves:inbucket (not in append order).
 """
@@ -64,6 +65,19 @@ class _OsProxy:
         return getattr(self._real, name)
 
 
+class _RandomProxy:
+    """stands in for the name `random` inside ONE construction module: the module-level functions come from a seeded
+    generator, everything else (SystemRandom, Random, constants ...) is the real module's"""
+    def __init__(self, real, inst):
+        self._real, self._inst = real, inst
+
+    def __getattr__(self, name):
+        v = getattr(self._real, name)
+        if isinstance(v, type) or name.startswith("_") or not callable(v):
+            return v
+        return getattr(self._inst, name, v)
+
+
 class det_random:
     """with det_random(construction_module, seed): the module's `os.urandom` and `random.*` are a fixed stream"""
     def __init__(self, cm, sd):
@@ -74,7 +88,7 @@ class det_random:
         if "os" in self.saved:
             self.cm.os = _OsProxy(self.saved["os"], _Stream(("os", self.sd)))
         if "random" in self.saved:
-            self.cm.random = random.Random(repr(("random", self.sd)))
+            self.cm.random = _RandomProxy(self.saved["random"], random.Random(repr(("random", self.sd))))
         # also the global entry points, so that a module that reaches them through `import os as _os`, `random.randint`
         # imported by name, etc. is still replayed (only `from os import urandom` at import time would escape)
         import os as _os
@@ -204,16 +218,23 @@ def wrap_lists(scheme, edb):
     return recs
 
 
+class SearchFailed(Exception):
+    pass
+
+
 def slots_per_keyword(scheme, sch, key, edb, db):
     recs = wrap_lists(scheme, edb)
     runs = []
     for kw in db:
-        tok = sch.TokenGen(key, kw)
         log = []
         for r in recs:
             r.log = log
         try:
-            sch.Search(edb, tok)
+            try:
+                tok = sch.TokenGen(key, kw)
+                sch.Search(edb, tok)
+            except Exception as ex:       # the code under test refuses a valid search: an observation (NoRaiseOnValid)
+                raise SearchFailed("Search %s: %s" % (type(ex).__name__, str(ex)[:100]))
         finally:
             for r in recs:
                 r.log = None
@@ -239,7 +260,7 @@ def dp_occupants(sch, key, edb, db, runs):
             for ki, etag, ids in toks:
                 try:
                     pt = sch.config.rnd.Decrypt(etag, e)
-                except ValueError:
+                except Exception:         # not this keyword's entry (however the cipher says so)
                     continue
                 if pt[-lam:] == b"\x00" * lam and pt[:-lam] in ids:
                     who = [ki, ids[pt[:-lam]]]
@@ -255,24 +276,40 @@ def run_moves(job):
     db = make_db(scheme, cfg, profile, rnd)
     cfg = se.fit(scheme, cfg, profile, db)
     rec = {"kind": "moves", "scheme": scheme, "p": list(profile), "c": se.numbers(scheme, cfg), "setup": "raised",
-           "samekey": scheme not in FRESH_KEY, "run1": [], "run2": [], "inb1": [], "inb2": []}
+           "samekey": False, "run1": [], "run2": [], "inb1": [], "inb2": []}
     out = {"rec": rec, "meta": {"kind": "moves", "scheme": scheme, "gi": gi, "cfg": cfg, "p": list(profile), "seed": sd}, "err": ""}
     ml = sc.load(scheme)
     try:
         sch = ml.SSEScheme(cfg)
         k1 = sch.KeyGen()
         e1 = sch.EDBSetup(k1, db)
-        k2 = sch.KeyGen() if scheme in FRESH_KEY else k1
+        # "with a fresh key where placement is key-derived": whether it is, is the construction's business, so the second
+        # setup always gets a key of its own (random placement moves the blocks whatever the key)
+        k2 = sch.KeyGen()
         e2 = sch.EDBSetup(k2, db)
         rec["setup"] = "built"
+    except Exception as ex:
+        rec["setup"] = "raised"
+        out["err"] = "%s: %s" % (type(ex).__name__, str(ex)[:100])
+        return out
+    # from here on the harness looks INTO the index (list-typed members, bucket contents): a failure of that access is the
+    # harness being out of date, not the scheme refusing a valid database
+    try:
         rec["run1"] = slots_per_keyword(scheme, sch, k1, e1, db)
         rec["run2"] = slots_per_keyword(scheme, sch, k2, e2, db)
         if scheme == "DP17.Pi":
             rec["inb1"] = dp_occupants(sch, k1, e1, db, rec["run1"])
             rec["inb2"] = dp_occupants(sch, k2, e2, db, rec["run2"])
-    except Exception as ex:
+            for inb in (rec["inb1"], rec["inb2"]):
+                if inb and not any(w[0] for bk in inb for w in bk["occ"]):
+                    raise MachineryError("no entry of the buckets read could be attributed to a keyword: the harness does not understand the bucket format")
+    except SearchFailed as ex:
         rec["setup"] = "raised"
-        out["err"] = "%s: %s" % (type(ex).__name__, str(ex)[:100])
+        out["err"] = str(ex)
+    except MachineryError:
+        raise
+    except Exception as ex:
+        raise MachineryError("C06 cannot read the placement from the index of %s (%s: %s)" % (scheme, type(ex).__name__, str(ex)[:120]))
     return out
 
 
